@@ -1476,7 +1476,8 @@ fn main() {
          failing position k<=n in canonical key order, failure kind, failing pass first/middle/last of 3, scheduler kind); \
          every case runs 3 real scheduler passes (plus a blocked pass and trusted recovery after runtime-scoped faults) and then a BFS \
          (ops: pass, resolve each active fault, toggle eligibility of the culprit head, fresh ingress on each head) of the stated depth; \
-         every pass on every path is compared with the reference scheduler model and the all-or-nothing / ordering invariants. \
+         every pass on every path is compared with the reference scheduler model and the all-or-nothing / ordering invariants \
+         (quick tier: the descending-registration twin of each case runs the 3-pass history without the BFS). \
          distinct_nontrivial counts distinct (failure class, culprit position, heads already committed in the failed pass, n) \
          and distinct multi-commit batches of successful passes",
     );
@@ -1527,7 +1528,8 @@ fn main() {
         .par_iter()
         .enumerate()
         .map(|(i, sc)| {
-            if r.over_budget_frac(0.9) {
+            // thorough: stay within ~20 min of the 3600 s cap
+            if r.over_budget_frac(if quick { 0.9 } else { 0.33 }) {
                 return (i, None);
             }
             // quick tier: the registration-order twin of a scenario runs the 3-pass history only
